@@ -261,6 +261,23 @@ class UnitsAdapter:
                         dev('scale', 'unit %r has scale %s, its definition denotes %s' % (asym, sc, frac(su['num'])))
                 except Exception as exc:
                     dev('scale-raises', 'converting 1 %s to the reference unit raises %s' % (asym, type(exc).__name__))
+        # equality and hash of units (C04 / C19): units of one type compare by their scale (Units.tla UnitEq: with a
+        # reference unit equal <=> same type and same scale; without one <=> the identical unit), and equal => same hash
+        present = []
+        for s, su in sunits.items():
+            try:
+                present.append((s, su, Unit(self.actual(s))))
+            except ValueError:
+                pass
+        for (s1, su1, u1) in present:
+            for (s2, su2, u2) in present:
+                want = (su1['typ'] == su2['typ'] and
+                        (tuple(su1['num']) == tuple(su2['num']) if stypes[su1['typ']]['ref'] != 'NONE' else s1 == s2))
+                got = bool(u1 == u2)
+                if got != want or (u1 != u2) == got:
+                    dev('unit-eq', 'Unit(%r) == Unit(%r) is %s, specification: %s' % (u1.symbol, u2.symbol, got, want))
+                elif got and (hash(u1) != hash(u2) or len({u1, u2}) != 1):
+                    dev('unit-hash', 'Unit(%r) == Unit(%r) but their hashes differ' % (u1.symbol, u2.symbol))
         for name, st in stypes.items():
             cls = self.types.get(name)
             if cls is None:
